@@ -402,6 +402,7 @@ def check_C19(ctx):
     vt.tlc_design(ctx, 'Params', label='parameter lattice: the code decision path equals the meaning the property assigns (reject / execute exactly)')
     scen = vt.tlc_generate(ctx, 'GenRun', 'C19', 0)
     scen += vt.tlc_generate(ctx, 'GenRun', 'S01', 0)     # extra: HTTP status mapping (drift only)
+    scen += [x for x in vt.tlc_generate(ctx, 'GenRun', 'Hist', 0) if x['id'].startswith('C19/')]     # the same name traced with the other family before
     wire_family(ctx, 'C19', scen, RUN_RULE % 'C19All (TTL bounds far beyond 0..255, ports around 0/1/65535/65536, protocol and method strings, target literal forms; library and HTTP API)' +
                 '; non-trivial = the parameter set is not the default one (all are)', nontrivial=lambda s, es: True)
     vt.write_evidence(ctx, 'model_checking', ctx_rule(ctx), exhaustive=True)
@@ -447,6 +448,7 @@ def check_C11(ctx):
 def check_C20(ctx):
     vt.tlc_design(ctx, 'TcpPolicy', label='method x capability x injected failure: code path = policy')
     scen = vt.tlc_generate(ctx, 'GenRun', 'C20', 0)
+    scen += [x for x in vt.tlc_generate(ctx, 'GenRun', 'Hist', 0) if x['id'].startswith('C20/')]     # after a closed port of the same host
     wire_family(ctx, 'C20', scen, RUN_RULE % 'C20All (method x target capability x injected non-capability failure, with and without e2e probes)' +
                 '; non-trivial = every case (108 distinct)', nontrivial=lambda s, es: True)
     vt.write_evidence(ctx, 'model_checking', ctx_rule(ctx), exhaustive=True)
@@ -558,6 +560,7 @@ def check_C16(ctx):
     # the relations must also hold after redaction (Normalize -> RemovePrivateHops): the boundary-address documents of C17
     scen += vt.tlc_generate(ctx, 'GenDoc', 'C17', 0)
     scen += vt.tlc_generate(ctx, 'GenDoc', 'C16stress', 0)       # identifiers of documents finished concurrently
+    scen += [x for x in vt.tlc_generate(ctx, 'GenRun', 'Hist', 0) if x['id'].startswith('C16/')]     # the server's answer after a client that went away
     wire_family(ctx, 'C16', scen, DOC_RULE % 'C16Stress (documents finished by 2 / 8 goroutines at once: identifiers pairwise distinct), C16All (0..2 runs, hop lists over empty/v4/v6/mapped addresses, RTT sample lists of length 0..4 over {0,1,2,7} incl. every permutation)',
                 nontrivial=lambda s, es: True)
     vt.write_evidence(ctx, 'model_checking', ctx_rule(ctx), exhaustive=True)
@@ -567,6 +570,7 @@ def check_C17(ctx):
     scen = vt.tlc_generate(ctx, 'GenDoc', 'C17', 0)
     # through RunTraceroute and the HTTP handler over the wire: routers with private / public boundary addresses
     scen += vt.tlc_generate(ctx, 'GenRun', 'C17', 0)
+    scen += [x for x in vt.tlc_generate(ctx, 'GenRun', 'Hist', 0) if x['id'].startswith('C17/')]     # an identical unredacted request served at the same time
     wire_family(ctx, 'C17', scen, DOC_RULE % 'C17All (every private block boundary and its public neighbours, mapped forms, empty hops, with/without enrichment, skip on/off)' +
                 '; plus GenRun!C17All through RunTraceroute and the HTTP handler', nontrivial=lambda s, es: True)
     vt.write_evidence(ctx, 'model_checking', ctx_rule(ctx), exhaustive=True)
